@@ -14,7 +14,8 @@
 //  6. map reads / writes       -> simrt.MR / simrt.MW probes (happens-before race probe)
 //  7. simrt.P(site) before every statement (site marker + optional preemption)
 //  8. -const2var: listed constants become variables (tuning knobs)
-//  9. debug.Stack()            -> simrt.Stack() (constant text unless SIM_REAL_STACK is set)
+//  9. x.n++, x.n += d, x.l = append(x.l, v) on shared locations -> load ; site ; store (rmw.go)
+// 10. debug.Stack()            -> simrt.Stack() (constant text unless SIM_REAL_STACK is set)
 //
 // Anything in a position the rewriter does not handle stops it with exit status 2
 // (fail closed): the check then reports "could not be built", never pass or violation.
@@ -151,7 +152,7 @@ func main() {
 			die(err)
 		}
 	}
-	fmt.Printf("simgen: %d packages, %d files, %d sites\n", len(pkgs), nfiles, len(sites)-1)
+	fmt.Printf("simgen: %d packages, %d files, %d sites, %d read-modify-write statements split\n", len(pkgs), nfiles, len(sites)-1, rmwSplits)
 }
 
 func die(err error) {
@@ -171,6 +172,7 @@ type rewriter struct {
 	curFunc   string
 	handled   map[ast.Node]bool // channel operations that were bracketed
 	stmtPos   map[ast.Stmt]token.Pos
+	rmwStore  map[ast.Stmt]bool // stores produced by rmwPass: their site kind is "rmw-store"
 }
 
 func (r *rewriter) newSite(pos token.Pos, kind string) int {
@@ -229,6 +231,8 @@ func (r *rewriter) run() {
 		}
 	}
 	r.const2varPass()
+	r.rmwStore = map[ast.Stmt]bool{}
+	r.rmwPass()
 	r.exprPass()
 	// statement pass over every function body (FuncLits are reached from inside)
 	for _, d := range r.file.Decls {
@@ -576,6 +580,9 @@ func (r *rewriter) stmt(st ast.Stmt, label *ast.Ident) []ast.Stmt {
 		pos = p
 	}
 	out := []ast.Stmt{r.pStmt(pos)}
+	if r.rmwStore[st] {
+		sites[len(sites)-1].Kind = "rmw-store"
+	}
 	switch s := st.(type) {
 	case *ast.BlockStmt:
 		r.block(s)
